@@ -93,11 +93,65 @@ def check(ctx: Ctx):
     _mgm(ctx, repo)
     _mgm2(ctx, repo)
     _dsa(ctx, repo)
+    _neighbour_sets(ctx, repo)
+    _isolated_no_raise(ctx, repo)
     ctx.floor("R-ISOLATED", 3)
     ctx.floor("R-CYCLE", 9)
     ctx.floor("R-PROGRESS", 12)
     ctx.floor("R-STATE", 14)
     ctx.floor("R-PROTO", 8)
+
+
+# --------------------------------------------------------------------------- counting against the neighbours
+def _neighbour_sets(ctx, repo):
+    """`len(<dict keyed by sender>) == len(<neighbours>)` closes a phase: the neighbour collection must be
+    duplicate-free (a variable sharing two constraints with this one is ONE neighbour sending ONE message)."""
+    ctx.rule("R-COUNT", "the neighbour collection whose length closes a phase is duplicate-free (a set)")
+    n = 0
+    for algo in ("mgm", "mgm2"):
+        mod, cn = ALGOS[algo]
+        cls = repo.cls(mod, cn)
+        counted = set()
+        for f in cls.methods.values():
+            for c in ast.walk(f.node):
+                if isinstance(c, ast.Compare) and len(c.ops) == 1 and isinstance(c.ops[0], ast.Eq):
+                    for side in (c.left, c.comparators[0]):
+                        if isinstance(side, ast.Call) and call_name(side) == "len" and side.args and is_self_attr(side.args[0]) and side.args[0].attr in ("_neighbors", "neighbors", "neighbors_vars"):
+                            counted.add(side.args[0].attr)
+        for fld in sorted(counted):
+            ws = field_writes(cls, fld)
+            for w in ws:
+                n += 1
+                v = w.value
+                ok = isinstance(v, (ast.SetComp,)) or (isinstance(v, ast.Call) and call_name(v) in ("set", "frozenset"))
+                ctx.check(ok, "R-COUNT", f"{cn}.{fld} is built as a set", w.func, w.stmt,
+                          f"len(self.{fld}) is compared with the number of senders heard from: if a neighbour sharing several constraints is listed once per constraint the counts never match and the whole component waits for ever")
+    ctx.check(n >= 2, "R-COUNT", "neighbour collections found", repo.cls(*ALGOS["mgm"]), None, f"{n}")
+    # DSA counts against DcopComputation.neighbors, derived (de-duplicated) from the node's links: checked by C16 R-NEIGH
+
+
+def _isolated_no_raise(ctx, repo):
+    """the no-neighbour branch of on_start runs with an empty constraint list: nothing it reaches may reduce() an
+    empty sequence without an initial value"""
+    for algo, (mod, cn) in ALGOS.items():
+        cls = repo.cls(mod, cn)
+        on = cls.methods["on_start"]
+        for st in on.node.body:
+            if isinstance(st, ast.If) and isinstance(st.test, ast.UnaryOp) and isinstance(st.test.op, ast.Not) and norm(st.test.operand) in NEIGH:
+                seen, stack = set(), [(on, st.body)]
+                while stack:
+                    f, stmts = stack.pop()
+                    for s_ in stmts:
+                        for c in ast.walk(s_):
+                            if isinstance(c, ast.Call) and call_name(c) == "reduce" and len(c.args) == 2:
+                                ctx.bad("R-NORAISE", f"{cn}.on_start (no neighbour) reaches reduce() without initial value in {f.name}", f, c,
+                                        "a variable without neighbour may also have no constraint at all: reduce() of an empty sequence raises TypeError before finished() is called")
+                            if isinstance(c, ast.Call) and is_self_call(c):
+                                t = repo.lookup_method(cls, c.func.attr)
+                                if t is not None and t.cls is cls and t.fq not in seen:
+                                    seen.add(t.fq)
+                                    stack.append((t, t.node.body))
+                ctx.ok("R-NORAISE", f"{cn}.on_start: no-neighbour branch and the {len(seen)} methods it calls", on, st)
 
 
 # --------------------------------------------------------------------------- generic
@@ -664,6 +718,8 @@ _MGM = "pydcop/algorithms/mgm.py"
 _MGM2 = "pydcop/algorithms/mgm2.py"
 _DSA = "pydcop/algorithms/dsa.py"
 VARIANTS = [
+    ("mgm2_neighbors_sorted_list", _MGM2, "        self._neighbors = set(\n            [v for c in self._constraints for v in c.dimensions if v != self.variable]\n        )", "        self._neighbors = sorted(\n            [v for c in self._constraints for v in c.dimensions if v != self.variable],\n            key=lambda v: v.name,\n        )", "break", "R-COUNT"),
+    ("mgm_isolated_reduces_empty", _MGM, "            value, cost = optimal_cost_value(self._variable, self._mode)\n            self.value_selection(value, cost)\n\n            if self.logger.isEnabledFor(logging.INFO):\n                self.logger.info(\n                    f\"Select initial value {self.current_value} \"", "            values, cost = self._compute_best_value()\n            self.value_selection(values[0], cost)\n\n            if self.logger.isEnabledFor(logging.INFO):\n                self.logger.info(\n                    f\"Select initial value {self.current_value} \"", "break", "R-NORAISE"),
     ("mgm_drain_removes_while_iterating", _MGM, "            self._handle_value_message(msg[0], msg[1])\n        self.__postponed_value_messages__.clear()",
      "            self.__postponed_value_messages__.remove(msg)\n            self._handle_value_message(msg[0], msg[1])", "break", "R-STATE"),
     ("dsa_remove_unguarded", _DSA, "        elif delta == 0:\n            if len(best_values) > 1:\n                try:\n                    best_values.remove(self.current_value)\n                except ValueError:\n                    pass\n",
